@@ -728,6 +728,10 @@ class MarkdownNormalizer(Renderer):
         Render a GFM table. Does not do whitespace padding and normalizes
         the delimiters to use three dashes consistently.
         """
+        # Reset the skip flag since we're not rendering a blank line (a table directly after
+        # a heading would otherwise swallow the blank line that ends the table).
+        self._skip_next_blank_line = False
+
         lines: list[str] = []
         head, *body = element.children
         lines.append(self.render(head))
